@@ -112,9 +112,6 @@ example : (reqIds (runOuts (init .sync) [.open_, .msg (.welcome 1) [], .api (.ca
 
 /-! ## one_message_per_call -/
 
-/-- the messages among some outputs -/
-def sends (o : List SOut) : List OutMsg := o.filterMap (fun | .send m => some m | _ => none)
-
 /-- `one_message_per_call`: on an attached transport each request API hands exactly one message to `send()` —
 of the call's type, with the id just drawn, the given URI / args / kwargs and the options' `message_attr()` —
 whether or not `send()` then raises. -/
@@ -281,10 +278,6 @@ theorem table_iff_pending (mode : Sched) (h : List SEv) (hn : (reqIds (runOuts (
     rw [key.mpr ha]; simp
 
 /-! ## reply_routing -/
-
-/-- the completions among some outputs -/
-def completions (o : List SOut) : List (FutId × Outcome) :=
-  o.filterMap (fun | .complete f v => some (f, v) | _ => none)
 
 /-- the request a reply message answers, and what it completes that request with -/
 def replyOf (s : Sess) : InMsg → Option (Kind × ReqId × (Req → Outcome))
